@@ -1006,6 +1006,54 @@ fn parse_files0_args(config: &mut Config) -> Result<(), Box<dyn Error>> {
     Ok(())
 }
 
+/// Verification hooks: thin wrappers around the private glob and regex
+/// matchers. Compiled only with `--features verif-hooks`.
+#[cfg(feature = "verif-hooks")]
+pub mod verif_hooks {
+    use super::{Matcher, MatcherIO, WalkEntry};
+    use crate::find::Dependencies;
+    use std::cell::RefCell;
+    use std::io::Write;
+    use std::str::FromStr;
+    use std::time::SystemTime;
+
+    struct NullDeps {
+        out: RefCell<Vec<u8>>,
+    }
+
+    impl Dependencies for NullDeps {
+        fn get_output(&self) -> &RefCell<dyn Write> {
+            &self.out
+        }
+        fn now(&self) -> SystemTime {
+            SystemTime::UNIX_EPOCH
+        }
+    }
+
+    /// The glob matcher behind -name/-path/-lname applied to `subject`.
+    pub fn glob_match(pattern: &str, subject: &str, caseless: bool) -> bool {
+        super::glob::Pattern::new(pattern, caseless).matches(subject)
+    }
+
+    /// The -regex/-iregex matcher for `regextype` applied to the path `subject`
+    /// (which need not exist). Errors are the ones find would report.
+    pub fn regex_match(
+        regextype: &str,
+        pattern: &str,
+        ignore_case: bool,
+        subject: &str,
+    ) -> Result<bool, String> {
+        let ty = super::regex::RegexType::from_str(regextype).map_err(|e| e.to_string())?;
+        let m = super::regex::RegexMatcher::new(ty, pattern, ignore_case)
+            .map_err(|e| e.to_string())?;
+        let deps = NullDeps {
+            out: RefCell::new(vec![]),
+        };
+        let entry = WalkEntry::new(subject, 0, super::Follow::Never);
+        Ok(m.matches(&entry, &mut MatcherIO::new(&deps)))
+    }
+}
+
 #[cfg(test)]
 mod tests {
     use super::*;
